@@ -140,7 +140,10 @@ func (schedArea) Run(line string) string {
 		s.mu.Unlock()
 	}
 	// park the delivery goroutine inside the Write of a primer
-	_ = root.Handle(ctx, slog.NewRecord(time.Time{}, slog.LevelInfo, string(primerMark), 0)) //nolint:errcheck // buffered
+	if callHandle(root, slog.NewRecord(time.Time{}, slog.LevelInfo, string(primerMark), 0)) == "ret=blocked" {
+		release()
+		return "rets=blocked writes=-"
+	}
 	if !pollUntil(5*time.Second, func() bool { s.mu.Lock(); defer s.mu.Unlock(); return s.inflight }) {
 		release()
 		hangs++
@@ -223,7 +226,10 @@ func (schedArea) Run(line string) string {
 	// drain: log a sentinel until one arrives; the channel is FIFO, so everything accepted before it has been written
 	flushed := false
 	for seq, end := 1, time.Now().Add(5*time.Second); time.Now().Before(end) && !flushed; seq++ {
-		_ = root.Handle(ctx, slog.NewRecord(time.Time{}, slog.LevelInfo, string(sentinelMark)+strconv.Itoa(seq), 0)) //nolint:errcheck // buffered
+		// (every call of the harness into the handler has a deadline: a mutant may block in here)
+		if callHandle(root, slog.NewRecord(time.Time{}, slog.LevelInfo, string(sentinelMark)+strconv.Itoa(seq), 0)) == "ret=blocked" {
+			return "rets=" + strings.Join(append(rets, "blocked"), ",") + " writes=-"
+		}
 		want := seq
 		flushed = pollUntil(2*time.Millisecond, func() bool { s.mu.Lock(); defer s.mu.Unlock(); return s.seen == want })
 	}
